@@ -17,6 +17,7 @@ package main
 import (
 	"context"
 	"fmt"
+	"os"
 	"runtime"
 	"sort"
 	"strings"
@@ -26,6 +27,23 @@ import (
 )
 
 type callKey struct{}
+
+// progressPath: the concurrent case being run is noted here first, so that a Go
+// runtime fatal error (unrecoverable: "concurrent map writes", a corrupted value)
+// that kills the harness can be attributed to its case by the driver.
+var progressPath string
+
+func noteProgress(fields []string) {
+	if progressPath != "" {
+		os.WriteFile(progressPath, []byte(strings.Join(fields, "\t")+"\n"), 0o644)
+	}
+}
+
+func clearProgress() {
+	if progressPath != "" {
+		os.Remove(progressPath)
+	}
+}
 
 type hcase struct {
 	kind   string                                 // "W" or "P"
@@ -115,6 +133,8 @@ func (hc *hcase) concurrent(w *caseWriter, G, iters, procs int, rawhexes []strin
 	for i, x := range rawhexes {
 		raws[i] = unhexf(x)
 	}
+	noteProgress(append(append([]string{hc.kind + "c"}, hc.in...), fmt.Sprint(G), fmt.Sprint(iters), fmt.Sprint(procs),
+		strings.Join(rawhexes, ",")))
 	prev := runtime.GOMAXPROCS(procs)
 	sets := make([]map[string]bool, G)
 	var wg sync.WaitGroup
@@ -145,6 +165,7 @@ func (hc *hcase) concurrent(w *caseWriter, G, iters, procs int, rawhexes []strin
 	close(start)
 	wg.Wait()
 	runtime.GOMAXPROCS(prev)
+	clearProgress()
 	per := make([]map[string]bool, k)
 	for j := range per {
 		per[j] = map[string]bool{}
